@@ -6,6 +6,8 @@ byte for byte, on every run) and the tie of the constants.
 import Astits.Spec.Mux
 import Astits.Generated.Consts
 import Astits.Generated.Exprs
+import Astits.Proofs.MuxTables
+import Astits.Proofs.MuxTablesRT
 namespace Astits.C17
 open Spec
 
@@ -78,3 +80,304 @@ theorem generated_streamID : ∀ t : Fin 256, Generated.toPESStreamID t.val = to
 example : reservedPID 0x100 = false ∧ reservedPID 0x1000 = true ∧ reservedPID 0 = true ∧ reservedPID 0x1fff = true := by decide
 
 end Astits.C17
+
+/-! # C17 for the MODEL of the real muxer (`Astits/Model/Mux.lean`), over all histories of API calls
+
+Histories are lists of `MuxCounters.Op` (`add` — PID 0 asks for an automatic PID —, `remove`, `setPCR`, `tables` =
+manual `WriteTables`, `data` = `WriteData`) run by `MuxCounters.run` from `newMux period`; failed calls are part of
+the histories.  Admissible histories (`StepOK'`): explicitly chosen PIDs are 13-bit and not 0x1000, and an automatic
+PID is only asked for while fewer than 7934 streams exist (`runAll_room`: at most 7934 adds suffice).
+Proofs: `Astits/Proofs/MuxTables.lean`, `Astits/Proofs/MuxTablesRT.lean`. -/
+namespace Astits.C17.Model
+open MuxCounters MuxTables
+
+/-! ## T1 — tables first, every period, and before a random access point on the PCR PID -/
+
+/-- **T1a** (every `WriteData` of every history).  For a successful `WriteData` made in state `m` (err = nil, no panic):
+its chunks start with PAT (PID 0) and PMT (PID 0x1000) iff the call is forced (random access indicator on the PCR
+PID) or, counting this call, the retransmit counter reaches the period; every chunk is on PID 0, 0x1000 or `d.pid`;
+afterwards the counter is 0 (tables emitted) or one more than before, and below the period (period ≥ 1). -/
+theorem tables_iff_due (period : Nat) (ops : List Op) (hok : RunAll StepOK' (newMux period) ops) :
+    RunAll (fun m op => ∀ d, op = .data d → DataSuccess m d →
+      (StartsWithTables (m.writeData d).1.chunks ↔ (dataForce m d = true ∨ m.period ≤ m.retransmitCounter + 1)) ∧
+      (∀ c ∈ (m.writeData d).1.chunks, pktPID c = 0 ∨ pktPID c = 4096 ∨ pktPID c = d.pid) ∧
+      (m.writeData d).2.1.retransmitCounter =
+        (if dataForce m d = true ∨ m.period ≤ m.retransmitCounter + 1 then 0 else m.retransmitCounter + 1) ∧
+      (1 ≤ m.period → (m.writeData d).2.1.retransmitCounter < m.period)) (newMux period) ops :=
+  history_t1 period ops hok
+
+/-- the period of every state of a history is the configured one -/
+theorem period_constant (period : Nat) (ops : List Op) : (run (newMux period) ops).2.period = period :=
+  run_period _ ops
+
+/-- **T1b** (tables first, output level): the first two chunks a muxer ever hands to the writer are a PAT and a PMT —
+no PES packet precedes the tables, whatever the calls and the period -/
+theorem tables_first (period : Nat) (ops : List Op) (hok : RunAll StepOK' (newMux period) ops) :
+    (run (newMux period) ops).1 = [] ∨ StartsWithTables (run (newMux period) ops).1 :=
+  history_tables_first period ops hok
+
+/-- **T1c** (first `WriteData`): if no earlier `WriteData` handed anything to the writer, a `WriteData` that succeeds
+starts with PAT and PMT (a fresh muxer's counter equals the period); more generally it emits nothing or starts
+with them.  (An earlier `WriteData` that emitted the tables and then failed has reset the counter: then the tables
+were already sent.) -/
+theorem first_writeData (period : Nat) (pre : List Op) (d : MuxerData)
+    (hok : RunAll StepOK' (newMux period) pre) (hq : RunAll NoDataOutput (newMux period) pre) :
+    (((run (newMux period) pre).2.writeData d).1.chunks = [] ∨
+      StartsWithTables ((run (newMux period) pre).2.writeData d).1.chunks) ∧
+    (DataSuccess (run (newMux period) pre).2 d →
+      StartsWithTables ((run (newMux period) pre).2.writeData d).1.chunks) :=
+  ⟨first_writeData_has_tables period pre d hok hq, first_success_has_tables period pre d hok hq⟩
+
+/-- **T1d** (at most one period): after any history `pre`, a stretch `ops` of calls in which no `WriteData` emits the
+tables contains fewer than `period` successful `WriteData` calls (period ≥ 1); with the counter `c` reached after
+`pre`, even `c + succCount < period` unless there is no successful call at all -/
+theorem at_most_one_period (period : Nat) (pre ops : List Op) (hok : RunAll StepOK' (newMux period) (pre ++ ops))
+    (hq : RunAll Quiet (run (newMux period) pre).2 ops) (hp : 1 ≤ period) :
+    succCount (run (newMux period) pre).2 ops < period ∧
+    (succCount (run (newMux period) pre).2 ops = 0 ∨
+      (run (newMux period) pre).2.retransmitCounter + succCount (run (newMux period) pre).2 ops < period) := by
+  obtain ⟨h1, h2⟩ := (runAll_append _ _ pre ops).1 hok
+  have hI := run_pidInv _ pre (pidInv_new period) h1
+  have hper := run_period (newMux period) pre
+  have e : (newMux period).period = period := rfl
+  rw [e] at hper
+  have b := quiet_bound _ ops hI h2 hq
+  have c := quiet_stretch_lt_period _ ops hI h2 hq (by rw [hper]; exact hp)
+  rw [hper] at b c
+  exact ⟨c, b⟩
+
+/-- **T1e** (the counting invariant, exactly).  `retransmitCounter` starts at `period`; a `WriteData` that emits the
+tables resets it to 0; any other *accepted* `WriteData` (known PID, PES header that can fit — also one whose due
+tables could not be generated, e.g. invalid PCR PID) adds one; rejected `WriteData` calls, the manual `WriteTables`,
+adds, removes and `SetPCRPID` do not touch it.  `autoEmitB` is observable: `autoEmitB_iff`. -/
+theorem counter_counts (period : Nat) (ops : List Op) :
+    (run (newMux period) ops).2.retransmitCounter = counterSpec period (newMux period) ops ∧
+    (∀ c m d, counterStep c m (.data d) = if autoEmitB m d then 0 else if acceptedB m d then c + 1 else c) ∧
+    (∀ c m op, (∀ d, op ≠ .data d) → counterStep c m op = c) := by
+  refine ⟨run_counter _ ops, fun _ _ _ => rfl, ?_⟩
+  intro c m op h
+  cases op with
+  | data d => exact absurd rfl (h d)
+  | _ => rfl
+
+/-! ## T2 — version numbers -/
+
+/-- **T2a**: the first tables a muxer emits carry version 0 (PAT and PMT) -/
+theorem first_versions (period : Nat) (pre : List Op) (op : Op)
+    (hok : RunAll StepOK' (newMux period) pre) (hq : RunAll NoEmit (newMux period) pre)
+    (he : Emits (run (newMux period) pre).2 op) :
+    wPAT (run (newMux period) pre).2 = 0 ∧ wPMT (run (newMux period) pre).2 = 0 :=
+  first_emission_versions period pre op hok hq he
+
+/-- **T2b** (two consecutive emissions).  After any history `pre` (state `m0`), `op0` emits the tables; then come calls
+`mid`, none of which emits the tables, leading to state `m2`.  The version field of the PMT emitted next (`wPMT m2`)
+equals the one emitted by `op0` (`wPMT m0`) iff no call of `mid` was a successful add or remove or a `SetPCRPID`
+(`anyModifies`), and is `wPMT m0 + 1` modulo 32 otherwise; without such a call the content (streams, PCR PID) is
+unchanged.  The PAT version is 0 at both.  (`SetPCRPID` with the current value, or an add followed by the removal of
+the same stream, do advance the version although the content is the same: the model — like the library — tracks
+calls, not content.) -/
+theorem consecutive_versions (period : Nat) (pre : List Op) (op0 : Op) (mid : List Op)
+    (hok : RunAll StepOK' (newMux period) (pre ++ op0 :: mid))
+    (he0 : Emits (run (newMux period) pre).2 op0)
+    (hq : RunAll NoEmit (step (run (newMux period) pre).2 op0).2 mid) :
+    wPMT (run (newMux period) pre).2 < 32 ∧
+    wPMT (run (step (run (newMux period) pre).2 op0).2 mid).2 =
+      (if anyModifies (step (run (newMux period) pre).2 op0).2 mid then (wPMT (run (newMux period) pre).2 + 1) % 32
+       else wPMT (run (newMux period) pre).2) ∧
+    (wPMT (run (step (run (newMux period) pre).2 op0).2 mid).2 = wPMT (run (newMux period) pre).2 ↔
+      anyModifies (step (run (newMux period) pre).2 op0).2 mid = false) ∧
+    (anyModifies (step (run (newMux period) pre).2 op0).2 mid = false →
+      content (run (step (run (newMux period) pre).2 op0).2 mid).2 = content (run (newMux period) pre).2) ∧
+    wPAT (run (newMux period) pre).2 = 0 ∧ wPAT (run (step (run (newMux period) pre).2 op0).2 mid).2 = 0 := by
+  obtain ⟨h1, h2, h3⟩ := (runAll_append _ _ pre (op0 :: mid)).1 hok
+  have hr := run_reach _ pre (reach_new period) h1
+  obtain ⟨a, b, c, d⟩ := versions_between _ op0 mid hr h2 he0 h3 hq
+  obtain ⟨e, f⟩ := versions_equal_iff _ op0 mid hr h2 he0 h3 hq
+  exact ⟨a, b, e, f, c, d⟩
+
+/-- **T2c**: `wPMT m` / `wPAT m` are the version fields of what an emitting call serialises and what the muxer then
+stores; the emission clears both "updated" flags and does not touch the content -/
+theorem emission_versions (period : Nat) (pre : List Op) (op : Op) (hok : RunAll StepOK' (newMux period) pre)
+    (he : Emits (run (newMux period) pre).2 op) :
+    (step (run (newMux period) pre).2 op).2.pmtVersion.value = wPMT (run (newMux period) pre).2 ∧
+    (step (run (newMux period) pre).2 op).2.patVersion.value = 0 ∧
+    (step (run (newMux period) pre).2 op).2.pmtUpdated = false ∧
+    (step (run (newMux period) pre).2 op).2.pmUpdated = false ∧
+    content (step (run (newMux period) pre).2 op).2 = content (run (newMux period) pre).2 := by
+  have hr := run_reach _ pre (reach_new period) hok
+  obtain ⟨⟨tcs, _, ht, _⟩, e1, e2, e3, e4, e5, e6, _⟩ := step_emits _ op hr.pid.inv he
+  generalize (run (newMux period) pre).2 = m at *
+  have hne : m.streams ≠ [] := by
+    intro hh
+    have := ht.pcrValid
+    rw [hh] at this
+    cases this
+  have hv0 : m.pmtVersion.value ≤ 31 ∨ m.pmtUpdated = true := by
+    cases hu : m.pmtUpdated
+    · left
+      have := hr.ver.pmtLe
+      have : m.pmtVersion.value ≠ 32 := fun hv => hne (hr.ver.pmtFresh hv hu)
+      omega
+    · exact Or.inr rfl
+  refine ⟨by rw [e1]; exact (wPMT_eq m hr.ver hv0).2.2, by rw [e2]; exact (wPAT_zero m hr.ver).2.1, e3, e4, ?_⟩
+  unfold content
+  rw [e5, e6]
+
+/-- **T2d**: the PAT never changes, so its version field is 0 in every reachable state (`pmUpdated` is true only until
+the first emission) -/
+theorem pat_version_zero (period : Nat) (ops : List Op) (hok : RunAll StepOK' (newMux period) ops) :
+    wPAT (run (newMux period) ops).2 = 0 :=
+  (wPAT_zero _ (run_reach _ ops (reach_new period) hok).ver).1
+
+/-! ## T3 — content -/
+
+/-- **T3a** (what is serialised): a call that emits the tables hands to `writePacket`, on PID 0 and then on PID 0x1000,
+the `writePSIData` serialisations of the PAT `program 1 ↦ PID 0x1000` and of the PMT of program 1 whose
+`elementaryStreams` are exactly `m.streams`, in this order, and whose `pcrPID` is `m.pcrPID` — and that PCR PID is
+the PID of one of the streams -/
+theorem emitted_content (period : Nat) (pre : List Op) (op : Op) (hok : RunAll StepOK' (newMux period) pre)
+    (he : Emits (run (newMux period) pre).2 op) :
+    ∃ pat pmt rest patPayload pmtPayload, (step (run (newMux period) pre).2 op).1 = pat :: pmt :: rest ∧
+      writePSIData (tablePSI 0 (calcPATSectionLength patData) 0 (wPAT (run (newMux period) pre).2) { pat := some patData })
+        = .ok patPayload ∧
+      writePacket (tablePacket 0 (run (newMux period) pre).2.patCC.inc.get patPayload) 188 = .ok pat ∧
+      writePSIData (tablePSI 2 (calcPMTSectionLength (run (newMux period) pre).2.pmtData) 1 (wPMT (run (newMux period) pre).2)
+        { pmt := some (run (newMux period) pre).2.pmtData }) = .ok pmtPayload ∧
+      writePacket (tablePacket 4096 (run (newMux period) pre).2.pmtCC.inc.get pmtPayload) 188 = .ok pmt ∧
+      (run (newMux period) pre).2.pmtData =
+        { elementaryStreams := (run (newMux period) pre).2.streams, pcrPID := (run (newMux period) pre).2.pcrPID,
+          programDescriptors := [], programNumber := 1 } ∧
+      patData = { programs := [{ programMapID := 4096, programNumber := 1 }], transportStreamID := 0 } ∧
+      (run (newMux period) pre).2.streams.any (·.elementaryPID == (run (newMux period) pre).2.pcrPID) = true := by
+  have hr := run_reach _ pre (reach_new period) hok
+  obtain ⟨pat, pmt, rest, p1, p2, a0, a1, a2, a3, a4, a5⟩ := emits_payloads _ op hr.pid.inv he
+  exact ⟨pat, pmt, rest, p1, p2, a0, a1, a2, a3, a4, rfl, rfl, a5⟩
+
+/-- **T3b** (how the content evolves): in any state, after a call the streams and PCR PID are `nextContent`: an add appends
+the stream (with the automatic PID if it came with PID 0; an explicit PID already present is refused and nothing
+changes), a remove filters the PID out, `SetPCRPID` replaces the PCR PID, `WriteTables` / `WriteData` change neither -/
+theorem content_evolution (m : Mux) (op : Op) : content (step m op).2 = nextContent m op ∧
+    (∀ es, nextContent m (.add es) =
+      if es.elementaryPID = 0 then (m.streams ++ [{ es with elementaryPID := autoPID m }], m.pcrPID)
+      else if m.streams.any (·.elementaryPID == es.elementaryPID) then (m.streams, m.pcrPID)
+      else (m.streams ++ [es], m.pcrPID)) ∧
+    (∀ pid, nextContent m (.remove pid) = (m.streams.filter (·.elementaryPID != pid), m.pcrPID)) ∧
+    (∀ pid, nextContent m (.setPCR pid) = (m.streams, pid)) ∧
+    nextContent m .tables = (m.streams, m.pcrPID) ∧ (∀ d, nextContent m (.data d) = (m.streams, m.pcrPID)) :=
+  ⟨step_content m op, fun _ => rfl, fun _ => rfl, fun _ => rfl, rfl, fun _ => rfl⟩
+
+/-- **T3c** (read back with the model's parsers; composes C11 whole-packet and C13 whole-section round trips).  For
+streams with 8-bit stream types and descriptors satisfying C13's `DescOk` (none, or user-defined ones), and a PMT
+section that fits 12 bits: the first emitted packet parses (`parsePacket`) as a PID-0 packet with payload-unit-start
+and no adaptation field whose payload parses (`parsePSIData`) as the PAT `program 1 ↦ 0x1000`, version `wPAT m`;
+the second as a PID-0x1000 packet whose payload parses as the PMT of program 1 with `elementaryStreams = m.streams`
+and `pcrPID = m.pcrPID`, version `wPMT m`.  (`FirstSectionIs`: pointer field 0, that section first, followed by
+nothing or by the stop marker for the 0xff stuffing.) -/
+theorem emitted_tables_read_back (period : Nat) (pre : List Op) (op : Op) (hok : RunAll StepOK' (newMux period) pre)
+    (he : Emits (run (newMux period) pre).2 op)
+    (hs : ∀ es ∈ (run (newMux period) pre).2.streams, StreamOk es)
+    (hfit : 9 + PSIRT.pmtBodySize (run (newMux period) pre).2.pmtData < 4096) :
+    ∃ pat pmt rest patPkt pmtPkt, (step (run (newMux period) pre).2 op).1 = pat :: pmt :: rest ∧
+      (parsePacket none).val pat = .ok patPkt ∧ patPkt.header.pid = 0 ∧
+      patPkt.header.payloadUnitStartIndicator = true ∧ patPkt.adaptationField = none ∧
+      FirstSectionIs patPkt.payload 0 (wPAT (run (newMux period) pre).2) { pat := some patData } ∧
+      (parsePacket none).val pmt = .ok pmtPkt ∧ pmtPkt.header.pid = 4096 ∧
+      pmtPkt.header.payloadUnitStartIndicator = true ∧ pmtPkt.adaptationField = none ∧
+      FirstSectionIs pmtPkt.payload 1 (wPMT (run (newMux period) pre).2)
+        { pmt := some { elementaryStreams := (run (newMux period) pre).2.streams,
+                        pcrPID := (run (newMux period) pre).2.pcrPID, programDescriptors := [], programNumber := 1 } } :=
+  emitted_tables_parse _ op (run_reach _ pre (reach_new period) hok) he hs hfit
+
+/-! ## T4 — automatic PIDs -/
+
+/-- **T4a**: along any admissible history, every stream added with PID 0 is accepted and appended with a PID in
+0x100..0x1ffe, other than 0x1000, and different from the PID of every stream present at that moment -/
+theorem auto_pids (period : Nat) (ops : List Op) (hok : RunAll StepOK' (newMux period) ops) :
+    RunAll (fun m op => ∀ es, op = .add es → es.elementaryPID = 0 →
+      (m.addElementaryStream es).1.isOk = true ∧
+      (m.addElementaryStream es).2.streams = m.streams ++ [{ es with elementaryPID := autoPID m }] ∧
+      256 ≤ autoPID m ∧ autoPID m ≠ 4096 ∧ autoPID m < 8191 ∧ autoPID m ∉ m.streams.map (·.elementaryPID))
+      (newMux period) ops :=
+  (history_auto_pids period ops hok).1
+
+/-- **T4b** (invariant): at all times the PIDs of the streams are pairwise distinct, none is 0 or 0x1000, all are 13-bit
+(an explicit add of a PID already present is refused with `pidExists`: `add_result`) -/
+theorem pids_distinct (period : Nat) (ops : List Op) (hok : RunAll StepOK' (newMux period) ops) :
+    ((run (newMux period) ops).2.streams.map (·.elementaryPID)).Nodup ∧
+    ∀ es ∈ (run (newMux period) ops).2.streams, es.elementaryPID ≠ 0 ∧ es.elementaryPID ≠ 4096 ∧ es.elementaryPID < 8192 :=
+  history_pids_distinct period ops hok
+
+/-- **T4c** (`nextFree`, exactly): the automatic PID (search from `nextPID` with fuel 65536 = the whole uint16 space) is
+free iff any PID is free at all; fewer than 7934 stream contexts guarantee it; otherwise — all 7934 assignable
+PIDs in use — the search runs out of fuel and returns a PID that is in use -/
+theorem nextFree_exact (m : Mux) (hn : m.nextPID < 65536) :
+    (m.pidInUse (autoPID m) = false ↔ ∃ p, m.pidInUse p = false) ∧
+    (m.esCC.length < 7934 → m.pidInUse (autoPID m) = false) ∧
+    (∀ p, m.pidInUse p = false ↔ 256 ≤ p ∧ p ≠ 4096 ∧ p < 8191 ∧ p ∉ m.esCC.map (·.1)) :=
+  ⟨autoPID_free_iff m hn, fun h => (autoPID_free_iff m hn).2 (exists_free m h), pidInUse_false_iff m⟩
+
+/-- **T4d**: a history of admissible calls with at most 7934 adds is admissible (there is always room) -/
+theorem few_adds_admissible (period : Nat) (ops : List Op) (hok : ∀ op ∈ ops, OpOK' op)
+    (hn : (ops.filter isAdd).length ≤ 7934) : RunAll StepOK' (newMux period) ops :=
+  runAll_room _ ops hok (by simpa [newMux] using hn)
+
+/-! ## non-vacuity: a concrete history -/
+
+/-- period 2; a video stream with automatic PID (gets 0x100), PCR PID 0x100, three `WriteData`, an audio stream
+with automatic PID (gets 0x101) before the third, a failed add (duplicate), a failed `WriteData` (unknown PID) -/
+def exPre : List Op :=
+  [.add { elementaryPID := 0, streamType := 0x1b }, .setPCR 256]
+def exData (bs : Bytes) : MuxerData := { pid := 256, pes := { data := bs } }
+def exMid : List Op :=
+  [.data (exData [4]), .add { elementaryPID := 0, streamType := 0x0f }, .add { elementaryPID := 256 },
+   .data { pid := 999, pes := { data := [9] } }]
+def exOps : List Op := exPre ++ .data (exData [1, 2, 3]) :: exMid ++ [.data (exData [5])]
+
+example : RunAll StepOK' (newMux 2) exOps := by decide +kernel
+example : RunAll StepOK' (newMux 2) exOps := few_adds_admissible 2 exOps (by decide) (by decide)
+/-- the output: tables, PES, PES, tables (period 2), PES -/
+example : (run (newMux 2) exOps).1.map pktPID = [0, 4096, 256, 256, 0, 4096, 256] := by decide +kernel
+example : (run (newMux 2) exOps).2.streams.map (·.elementaryPID) = [256, 257] := by decide +kernel
+-- T1c / T2a hypotheses
+example : RunAll NoDataOutput (newMux 2) exPre ∧ RunAll NoEmit (newMux 2) exPre ∧
+    DataSuccess (run (newMux 2) exPre).2 (exData [1, 2, 3]) ∧ Emits (run (newMux 2) exPre).2 (.data (exData [1, 2, 3])) := by
+  decide +kernel
+-- T1d hypotheses: a stretch without tables (one successful `WriteData`, period 2)
+example : RunAll StepOK' (newMux 2) ((exPre ++ [.data (exData [1, 2, 3])]) ++ exMid) ∧
+    RunAll Quiet (run (newMux 2) (exPre ++ [.data (exData [1, 2, 3])])).2 exMid ∧
+    succCount (run (newMux 2) (exPre ++ [.data (exData [1, 2, 3])])).2 exMid = 1 := by decide +kernel
+-- T2b hypotheses: `exMid` lies between two emissions and modifies the content (an add): version 0, then 1
+example : RunAll StepOK' (newMux 2) (exPre ++ .data (exData [1, 2, 3]) :: exMid) ∧
+    Emits (run (newMux 2) exPre).2 (.data (exData [1, 2, 3])) ∧
+    RunAll NoEmit (step (run (newMux 2) exPre).2 (.data (exData [1, 2, 3]))).2 exMid ∧
+    anyModifies (step (run (newMux 2) exPre).2 (.data (exData [1, 2, 3]))).2 exMid = true ∧
+    Emits (run (newMux 2) (exPre ++ .data (exData [1, 2, 3]) :: exMid)).2 (.data (exData [5])) ∧
+    wPMT (run (newMux 2) exPre).2 = 0 ∧ wPMT (run (newMux 2) (exPre ++ .data (exData [1, 2, 3]) :: exMid)).2 = 1 := by
+  decide +kernel
+-- … and a stretch that does not modify it (a `WriteData` and a refused add): same version
+example : Emits (run (newMux 3) exPre).2 (.data (exData [1])) ∧
+    RunAll NoEmit (step (run (newMux 3) exPre).2 (.data (exData [1]))).2 [.data (exData [2]), .add { elementaryPID := 256 }] ∧
+    anyModifies (step (run (newMux 3) exPre).2 (.data (exData [1]))).2 [.data (exData [2]), .add { elementaryPID := 256 }] = false ∧
+    wPMT (run (newMux 3) (exPre ++ [.data (exData [1]), .data (exData [2]), .add { elementaryPID := 256 }])).2 = 0 := by
+  decide +kernel
+-- T3c hypotheses: streams without descriptors
+example : ∀ es ∈ (run (newMux 2) (exPre ++ .data (exData [1, 2, 3]) :: exMid)).2.streams, StreamOk es := by
+  have h : (run (newMux 2) (exPre ++ .data (exData [1, 2, 3]) :: exMid)).2.streams.all
+      (fun es => decide (es.streamType < 256) && es.elementaryStreamDescriptors.isEmpty) = true := by decide +kernel
+  intro es hes
+  have := List.all_eq_true.1 h es hes
+  simp only [Bool.and_eq_true, decide_eq_true_eq, List.isEmpty_iff] at this
+  exact ⟨this.1, (by rw [this.2]; intro d hd; cases hd), (by rw [this.2]; decide)⟩
+example : 9 + PSIRT.pmtBodySize (run (newMux 2) (exPre ++ .data (exData [1, 2, 3]) :: exMid)).2.pmtData < 4096 := by
+  decide +kernel
+-- T4c: a state with room
+example : (newMux 2).nextPID < 65536 ∧ (newMux 2).esCC.length < 7934 := by decide
+-- a forced emission: random access indicator on the PCR PID, although the counter (1) is below the period (5)
+example : (run (newMux 5) (exPre ++ [.data (exData [1])])).2.retransmitCounter = 0 ∧
+    dataForce (run (newMux 5) (exPre ++ [.data (exData [1])])).2
+      { pid := 256, adaptationField := some { randomAccessIndicator := true }, pes := { data := [7] } } = true ∧
+    Emits (run (newMux 5) (exPre ++ [.data (exData [1])])).2
+      (.data { pid := 256, adaptationField := some { randomAccessIndicator := true }, pes := { data := [7] } }) := by
+  decide +kernel
+
+end Astits.C17.Model
